@@ -66,6 +66,8 @@ void DownhillSimplexMethod::doInit(const ParameterList& params)
   simplex_[0] = getParameters();
   y_[0] = getFunction()->f(simplex_[0]);
   nbEval_++;
+  // Until a step has ranked the vertices, the reported point is the starting one (not the best vertex of an earlier run):
+  iLowest_ = 0;
 
   pSum_ = getPSum();
 }
